@@ -54,6 +54,10 @@ func (b *cn470Band) GetPingSlotFrequency(devAddr lorawan.DevAddr, beaconTime tim
 }
 
 func (b *cn470Band) GetRX1ChannelIndexForUplinkChannelIndex(uplinkChannel int) (int, error) {
+	if uplinkChannel < 0 {
+		return 0, errors.New("lorawan/band: invalid channel")
+	}
+
 	return uplinkChannel % 48, nil
 }
 
